@@ -24,7 +24,7 @@ its marker): `mount` / `unmount` / `insert_before_this` of such views act on the
 | `nextMounted`                | `VecExt::get_next_closest_mounted_sibling`                                   |
 | `insertBefore`, `removeNode` | `Rndr::insert_node` (= DOM `insertBefore`, detaches first), `Rndr::remove`   |
 | `mountItem`, `unmountItem`, `insertBeforeThisOrMarker` | `Mountable` for elements / tuples (html/element/mod.rs, view/tuples.rs, view/mod.rs) |
-| `build`, `rebuild`           | `Render for Keyed` `build` / `rebuild`                                       |
+| `build`, `rebuild`, `hydrate` | `Render for Keyed` `build` / `rebuild`, `RenderHtml for Keyed` `hydrate`     |
 | `KState.mount/unmount/insertBeforeThis` | `Mountable for KeyedState`                                        |
 
 `IndexSet` lookups: `get_index i` is `l[i]?`, `contains k` is `l.contains k`, `get_full k` is
@@ -427,6 +427,12 @@ def KState.mount (s : KState) (ref : Option NodeId) : KState :=
   let kids := (s.w.storage.filterMap id).foldl (fun ks it => mountItem ks it ref) s.w.kids
   { s with w := { s.w with kids := insertBefore kids s.marker ref }, parent := true }
 
+/-- `Keyed::hydrate`: the rows and the marker are adopted from the server-rendered children of the parent
+(the cursor walk finds them in place) and the parent is recorded: the same state as `build` followed by
+`mount` at that place. (`pre` = the children before the list; siblings after it are appended by the caller.) -/
+def hydrate (bs : Nat) (keys : List Key) (pre : List NodeId) (next : Nat) : KState :=
+  (build bs keys pre next).mount none
+
 /-- `KeyedState::unmount`: the items and the marker leave the DOM; `parent` is kept (so a `rebuild` before
 the next `mount` still runs the DOM half of `apply_diff`: every insertion then refers to a node that is not
 a child of the parent and fails without effect, see `insertBefore`) -/
@@ -510,6 +516,29 @@ def settled (D : List Key → List Key → Diff) (frm to : List Key) (k : Key) :
 (old index ↦ new index is strictly monotone) -/
 def settledMonotone (D : List Key → List Key → Diff) (frm to : List Key) : Bool :=
   frm.filter (settled D frm to) == to.filter (settled D frm to)
+
+/-! ## row-local state: the owner of an item
+
+The reactive state a row body creates for itself (signals, stored values, memos, effects) lives in the
+row's reactive owner. leptos `<For>` / `<ForEnumerate>` (leptos/src/for_loop.rs) create that owner in
+`view_fn` (`parent.with(Owner::new)`), run the row body under it (`owner.with(|| children(..))`) and hand it
+to the item state (`OwnedView::new_with_owner`): it lives exactly as long as the item state does. `rebuild`
+calls `view_fn` for new keys only and drops only the states of removed items, so the owner table follows
+the stored items. -/
+
+/-- one cell per item state: the value of the row-local state of that item -/
+abbrev Owners := List (Item × Nat)
+
+def Owners.get (o : Owners) (it : Item) : Option Nat := (o.find? fun p => p.1 == it).map (·.2)
+
+/-- a write to the row-local state of `it` -/
+def Owners.set (o : Owners) (it : Item) (v : Nat) : Owners := o.map fun p => if p.1 == it then (it, v) else p
+
+/-- the owners after a `rebuild` that ended in the state `s'`: an item that is still stored keeps its owner
+(untouched), the owners of dropped item states are disposed, the row body of a built item has run once under
+a new owner (`fresh key` = the state it creates) -/
+def ownersAfter (fresh : Key → Nat) (o : Owners) (s' : KState) : Owners :=
+  (s'.w.storage.filterMap id).map fun it => (it, (o.get it).getD (fresh it.key))
 
 /-- the nodes of the mounted items, in storage order -/
 def blocksOf (storage : List (Option Item)) : List NodeId :=
